@@ -87,6 +87,87 @@ prop("C11", extra_targets=["ChkReg.vo"])
 prop("C12", extra_targets=["ChkReg.vo"])
 
 
+
+# ---------- anchored source (advisory; DESIGN.md section 9a) ----------
+# which Rust items each hand-written model transliterates.  A changed hash is NOT a verdict (the
+# correspondence decides); it is copied into the evidence so that a reader of a passing run knows which
+# transliterations have only been validated behaviourally since the model was last inspected.
+ANCHORS = {
+    "C01": [("app.rs", ["execute_multi", "sudo", "wasm_sudo"]), ("transactions.rs", ["transactional"]), ("executor.rs", ["instantiate_contract", "execute_contract", "migrate_contract", "send_tokens"])],
+    "C02": [("wasm.rs", ["execute_submsg", "process_response", "with_storage"]), ("transactions.rs", ["transactional"])],
+    "C03": [("wasm.rs", ["execute_submsg", "reply"])],
+    "C04": [("wasm.rs", ["build_app_response", "process_response", "execute_submsg", "encode_response_data", "instantiate_response"])],
+    "C05": [("wasm.rs", ["execute_wasm", "process_wasm_msg_instantiate", "send", "get_env", "call_execute", "call_instantiate"])],
+    "C06": [("transactions.rs", ["get", "range", "set", "remove", "commit", "next", "pick_match", "take_left", "range_bounds", "transactional"])],
+    "C07": [("prefixed_storage/length_prefixed.rs", ["to_length_prefixed", "to_length_prefixed_nested", "encode_length"]), ("prefixed_storage/namespace_helpers.rs", ["get_with_prefix", "set_with_prefix", "remove_with_prefix", "range_with_prefix", "namespace_upper_bound", "trim", "concat"])],
+    "C08": [("wasm.rs", ["contract_namespace", "contract_storage", "contract_storage_mut", "with_storage", "with_storage_readonly", "query_raw", "dump_wasm_raw"])],
+    "C09": [("bank.rs", ["send", "burn", "mint", "normalize_amount", "get_supply", "get_balance", "set_balance", "query", "coins_to_string"])],
+    "C10": [("wasm.rs", ["with_storage", "query_smart", "query_raw", "query"]), ("app.rs", ["raw_query", "query"])],
+    "C11": [("wasm.rs", ["next_code_id", "save_code", "store_code", "store_code_with_id", "duplicate_code", "register_contract", "code_data", "contract_code"]), ("addresses.rs", ["contract_address", "predictable_contract_address"]), ("checksums.rs", ["checksum"])],
+    "C12": [("wasm.rs", ["update_admin", "execute_wasm"])],
+    "C13": [("wasm.rs", ["verify_attributes", "verify_response", "call_execute", "call_instantiate", "call_reply", "call_sudo", "call_migrate"])],
+    "C14": [("staking.rs", ["update_stake", "add_stake", "remove_stake", "process_queue", "execute", "validate_denom", "get_stake"])],
+    "C15": [("staking.rs", ["calculate_rewards", "update_rewards", "get_rewards_internal", "remove_rewards", "share_of_rewards", "get_rewards"])],
+    "C16": [("staking.rs", ["slash", "validate_percentage", "sudo"])],
+    "C18": [("api.rs", ["addr_validate", "addr_canonicalize", "addr_humanize", "addr_make"]), ("addresses.rs", ["into_addr", "into_addr_with_prefix", "into_bech32", "into_bech32_with_prefix", "into_bech32m", "into_bech32m_with_prefix"])],
+    "C19": [("checksums.rs", ["checksum"]), ("addresses.rs", ["contract_address", "predictable_contract_address"])],
+}
+
+
+def rust_fn_texts(path, names):
+    """the source text of every `fn <name>` item of the file (brace matching; comments and strings are
+    not parsed, which is good enough for a hash)"""
+    try:
+        src = open(path, errors="replace").read()
+    except OSError:
+        return {}
+    out = {}
+    for n in names:
+        texts = []
+        for m in re.finditer(r"\bfn\s+%s\b" % re.escape(n), src):
+            i = src.find("{", m.end())
+            semi = src.find(";", m.end())
+            if i < 0 or (0 <= semi < i):
+                continue
+            depth, j = 0, i
+            while j < len(src):
+                if src[j] == "{":
+                    depth += 1
+                elif src[j] == "}":
+                    depth -= 1
+                    if depth == 0:
+                        break
+                j += 1
+            texts.append(re.sub(r"[ \t]+\n", "\n", src[m.start():j + 1]))
+        if texts:
+            out[n] = hashlib.sha256("\n".join(texts).encode()).hexdigest()[:16]
+    return out
+
+
+def anchor_hashes(pid):
+    res = {}
+    for f, names in ANCHORS.get(pid, []):
+        for n, h in rust_fn_texts(os.path.join(REPO, "src", f), names).items():
+            res["%s::%s" % (f, n)] = h
+    return res
+
+
+def anchor_notes(pid):
+    """compare with anchors.lock; returns (list of changed items, note text)"""
+    cur = anchor_hashes(pid)
+    try:
+        lock = json.load(open(os.path.join(ROOT, "anchors.lock"))).get(pid, {})
+    except (OSError, ValueError):
+        lock = {}
+    changed = sorted(k for k in set(cur) | set(lock) if cur.get(k) != lock.get(k))
+    return changed, len(cur)
+
+
+def relock_anchors():
+    json.dump({p: anchor_hashes(p) for p in sorted(ANCHORS)}, open(os.path.join(ROOT, "anchors.lock"), "w"), indent=1, sort_keys=True)
+    print("anchors.lock written for", len(ANCHORS), "properties")
+
+
 class Lock:
     def __init__(self, name):
         self.path = os.path.join(ROOT, ".lock-" + name)
@@ -401,6 +482,9 @@ def main():
     if args and args[0] == "--relock":
         relock()
         return 0
+    if args and args[0] == "--relock-anchors":
+        relock_anchors()
+        return 0
     if not args or args[0] not in PROPS:
         print(__doc__)
         print("known properties:", " ".join(sorted(PROPS)))
@@ -438,6 +522,14 @@ def main():
     if lk:
         print("INFRA: " + lk)
         return 2
+
+    changed, n_anch = anchor_notes(pid)
+    if n_anch:
+        if changed:
+            print("[%s] note (advisory, not a verdict): anchored source differs from anchors.lock: %s" % (pid, ", ".join(changed)))
+            notes.append("anchored Rust items that differ from anchors.lock (re-inspect the corresponding model functions; the correspondence run below is what decides): " + ", ".join(changed))
+        else:
+            notes.append("all %d anchored Rust items hash as in anchors.lock (the hand model was last inspected against exactly this source text)" % n_anch)
 
     # 1. translator
     if info["translator"]:
